@@ -12,6 +12,7 @@ EXPLANATION = (
     "resolved for this very input. R5 issuance confinement: coins, pool entries, fee_pool and tips are written only by the enumerated stages, each called only from its enumerated caller. "
     "R6 multiply_frac rounds down. R7 fee split / proposer reward conserve MEL (C05.R2/R3). R8 subsidy and peg touch only the built-in pools and the fee pool; fee+ERG subsidy = the scheduled reward."
     " Imports C18.R1/R2/R5 (ERG enters circulation only through DoscMint, bounded by the reward formula against the speed of the previous block) and the activation table C06.R5."
+    " R9 also decides the verdict of the gate itself (any sum overflowing ⇒ false, none ⇒ true; the fee is added to the MEL total). R10: no wrap-around arithmetic (wrapping_*) on amounts anywhere in the two state-machine crates. Imports C03.R5's inflator clause (microergs_per_dosc(h) is the table entry at h)."
 )
 NOT_DECIDED = ["the conservation inequality itself over sequences of blocks", "PoolState::{swap_many,deposit,withdraw} arithmetic (trusted base)",
                "order-dependent insert/remove interleaving is reported under C03.R2; pool-side mix-ups under C15"]
